@@ -42,7 +42,8 @@ static const char *PRELUDE =
   "int query_flag() { return flag; }\n"
   "int nop() { return 1; }\n"
   "int cb(mixed a, mixed b) { return 1; }\n"
-  "void spin() { while (1) ; }\n";
+  "void spin() { while (1) ; }\n"
+  "int bad() { return 1 / flag; }\n";
 static const char *RUN =
   "mixed run() { mixed e = catch(body()); flag = 1; return e; }\n";
 
@@ -67,8 +68,15 @@ static void build_corpus (void) {
     "  for (i = 0; i < 1000000; i++) { %s }", "  n = 1000000; for (i = 0; i < n; i++) { %s }",
     "  big = allocate(@A); foreach (x in big) foreach (y in big) foreach (z in big) foreach (w in big) { %s }",
     "  m = ([ 1:1, 2:2, 3:3, 4:4, 5:5, 6:6, 7:7, 8:8 ]); foreach (x, y in m) foreach (z, w in m) foreach (x, y in m) foreach (z, w in m) { %s }" };
-  static const char *lb_name[] = { "empty", "call", "catch-expr", "catch-block", "efun-callback", "catch-of-loop", "call_other" };
-  static const char *lb[] = { ";", "nop();", "catch(nop());", "catch { nop(); };", "filter(one, (: cb :));", "catch(spin());", "this_object()->nop();" };
+  static const char *lb_name[] = { "empty", "call", "catch-expr", "catch-block", "efun-callback", "catch-of-loop", "call_other",
+                                   /* a REAL run-time error caught in every iteration (the error path runs the master's error_handler() each time) */
+                                   "catch-of-division-by-zero", "catch-of-error()", "catch-of-index-out-of-bounds", "catch-of-call_other-on-0", "catch-of-error-in-callee",
+                                   "catch-block-of-bad-operand", "catch-of-sprintf-error", "catch-of-throw", "catch-of-catch-of-division-by-zero", "catch-of-error-in-efun-callback",
+                                   "catch-of-failing-load" };
+  static const char *lb[] = { ";", "nop();", "catch(nop());", "catch { nop(); };", "filter(one, (: cb :));", "catch(spin());", "this_object()->nop();",
+                              "catch(1 / flag);", "catch(error(\"x\"));", "catch(one[3]);", "catch(call_other(flag, \"nop\"));", "catch(bad());",
+                              "catch { gv = 1; gw = gv + one; };", "catch(sprintf(\"%d\", \"x\"));", "catch(throw(1));", "catch(catch(1 / flag));", "catch(filter(one, (: bad :)));",
+                              "catch(load_object(\"/c04/no-such-file\"));" };
   for (unsigned f = 0; f < sizeof lf / sizeof *lf; f++)
     for (unsigned b = 0; b < sizeof lb / sizeof *lb; b++) {
       char loop[1200];
@@ -296,6 +304,47 @@ static void build_corpus (void) {
       snprintf (name, sizeof name, "build:%s:%s", vb[i].name, guarded ? "each-step-in-catch" : "plain");
       add_prog ('V', name, "void move_to(object o) { move_object(o); }\nmixed ident(mixed x) { return x; }\nmapping nearfull() { mapping m = ([]); int i; for (i = 0; i < @M - 3; i++) m[i] = i; return m; }", body);
     }
+  /* ---- binary operations for every size relation of the operands: |a| < |b|, |a| = |b|, |a| > |b| (a from 1 entry to the limit L
+   * itself), result sizes L, L+1, L+9, operands disjoint or half overlapping, on every container kind that has a limit */
+  {
+    static const struct { const char *kind, *mk, *lim; int dedupes; } ck[] = {
+      { "mapping", "mkm", "@M", 1 }, { "array", "mka", "@A", 0 }, { "string", "mks", "@S", 0 }, { "buffer", "mkb", "@B", 0 } };
+    static const struct { const char *name, *expr; unsigned kinds; int dedupes; } op[] = {
+      { "a+b", "v = a + b;", 15, 0 }, { "a+=b", "a += b; v = a;", 15, 0 }, { "temporary+b", "v = %s(na, 0) + b;", 15, 0 }, { "a+temporary", "v = a + %s(nb, na - ov);", 15, 0 },
+      { "global+=b", "gw = a; a = 0; gw += b; v = gw; gw = 0;", 3, 0 }, { "element+=b", "w = ({ a }); a = 0; w[0] += b; v = w[0];", 3, 0 },
+      { "a|b", "v = a | b;", 2, 1 }, { "a&b", "v = a & b;", 2, 1 }, { "a-b", "v = a - b;", 2, 1 }, { "a*b", "v = a * b;", 1, 1 },
+      { "sprintf(a,b)", "v = sprintf(\"%%s%%s\", a, b);", 4, 0 }, { "implode(a,b)", "v = implode(({ a, b }), \"\");", 4, 0 } };
+    static const struct { const char *name, *na; } split[] = {
+      { "left=1", "1" }, { "left=L/6", "L / 6" }, { "left=L/2-1", "L / 2 - 1" }, { "left=half", "(L + d) / 2" }, { "left=L/2+1", "L / 2 + 1" },
+      { "left=L-1", "L - 1" }, { "left=L", "L" } };
+    static const int dd[] = { 0, 1, 9 };
+    static const char *pair_helpers =
+      "mixed mkm(int n, int off) { mapping m = ([]); int i; for (i = 0; i < n; i++) m[off + i] = i; return m; }\n"
+      "mixed mka(int n, int off) { mixed *r = allocate(n); int i; for (i = 0; i < n; i++) r[i] = off + i; return r; }\n"
+      "mixed mks(int n, int off) { return repeat_string(\"a\", n); }\n"
+      "mixed mkb(int n, int off) { return allocate_buffer(n); }\n";
+    for (unsigned c = 0; c < sizeof ck / sizeof *ck; c++)
+      for (unsigned o = 0; o < sizeof op / sizeof *op; o++) {
+        if (!(op[o].kinds & (1u << c))) continue;
+        for (unsigned sp_ = 0; sp_ < sizeof split / sizeof *split; sp_++)
+          for (unsigned di = 0; di < sizeof dd / sizeof *dd; di++)
+            for (int ovl = 0; ovl < 2; ovl++) {
+              if (ovl && !(ck[c].dedupes || op[o].dedupes)) continue;     /* overlapping contents only matter where equal keys / elements merge */
+              for (int guarded = 0; guarded < 2; guarded++) {
+                char expr[200]; snprintf (expr, sizeof expr, op[o].expr, ck[c].mk);
+                snprintf (body, sizeof body,
+                          "  int L = %s, d = %d, na = %s, ov, nb; mixed a, b, v, w, e;\n"
+                          "  if (na < 0) na = 0; ov = %s; nb = L + d - na + ov; if (nb < 0) return;\n"
+                          "  a = %s(na, 0); b = %s(nb, na - ov);\n"
+                          "  %s%s%s\n  gv = v; gw = sizeof(v);",
+                          ck[c].lim, dd[di], split[sp_].na, ovl ? "(na < L + d - na ? na : L + d - na) / 2" : "0", ck[c].mk, ck[c].mk,
+                          guarded ? "e = catch { " : "", expr, guarded ? " };" : "");
+                snprintf (name, sizeof name, "pair:%s:%s:%s:%s:union=L%+d:%s", ck[c].kind, op[o].name, ovl ? "overlapping" : "disjoint", split[sp_].name, dd[di], guarded ? "in-catch" : "plain");
+                add_prog ('V', name, pair_helpers, body);
+              }
+            }
+      }
+  }
   /* literal aggregates larger than the limit */
   {
     char agg[6000]; size_t n = 0;
@@ -464,6 +513,7 @@ static void elem1 (long idx) {
     if (p->kind == 'V') { char *c = strrchr (b, ':'); if (c && (!strcmp (c, ":plain") || !strcmp (c, ":each-step-in-catch"))) *c = 0; }
     if (!strncmp (b, "loop:", 5)) snprintf (b, sizeof b, "loop");
     if (!strncmp (b, "stack-edge:", 11)) { char *c = strstr (b, ":pad"); if (c) *c = 0; }
+    if (!strncmp (b, "pair:", 5)) { char *c = strstr (b, ":left="); if (c) *c = 0; }        /* the sizes are in the message */
     snprintf (key, sizeof key, "%s:%s", viol_key[i], b);
     vx_fail (key, "%s [%s]", viol[i], vm_ctx_desc);
     vx_obs ("!! %s", key);
@@ -477,6 +527,7 @@ static void elem1 (long idx) {
     /* class of program: for loops the body decides, otherwise the program name */
     if (!strncmp (cls, "loop:", 5)) { char *c = strrchr (cls, ':'); snprintf (cls, sizeof cls, "loop-body:%s", c ? c + 1 : ""); }
     if (!strncmp (cls, "stack-edge:", 11)) { char *c = strstr (cls, ":pad"); if (c) *c = 0; }   /* the alignment is in the message */
+    if (!strncmp (cls, "pair:", 5)) { char *c = strstr (cls, ":left="); if (c) *c = 0; }
     snprintf (key, sizeof key, "C04:catch-swallowed-limit-error:%s:%s", (limit & 1) ? "eval-cost" : (limit & 2) ? "call-depth" : (limit & 4) ? "stack-overflow" : "call-depth-at-catch", cls);
     vx_fail (key, "\"%.60s\" was raised but the evaluation went on after the outermost catch (flag=%d, result %.100s) [%s]", ltext, flag, rtext, vm_ctx_desc);
   }
